@@ -433,6 +433,37 @@ def run_index_slice(P, R, log_dir):
     return r
 
 
+def native_slice_sentence(cty, bt, pieces, log_dir):
+    """-> (broken?, text) for `x[a:b:c]` with the given pieces ('' = absent) on a container of surface type cty"""
+    import kani
+    is_str = bt in ("String", "FrozenStr")
+    a, b, c = pieces
+    sl = f"{a}:{b}" + (f":{c}" if c else "")
+    src = f"def f(x: {cty}, a: int, b: int, c: int) -> {cty}:\n    return x[{sl}]\n"
+    helper = "incan_stdlib::strings::str_slice" if is_str else "incan_stdlib::collections::list_slice"
+    args = " ".join((f"(call:Some {n})" if n else "None") for n in pieces)
+    want = "^" + re.escape(f"(call:{helper} x {args})") + "$"
+    path = os.path.join(log_dir, "indexslice_replay.incn")
+    with open(path, "w") as fh:
+        fh.write(src)
+    texts, broken = [], False
+    for prof in ("dev", "release"):
+        binp = kani.build_replay(prof, True, log_dir)
+        rc, out, _, to = common.run([binp, "emitrust", path], timeout=60)
+        m = re.search(r"fn f\([^)]*\)[^{]*\{\s*return (.*?);\s*\}", out, re.S)
+        if not m:
+            if "CODEGEN-ERROR" in out:
+                broken = True
+                texts.append(f"[{prof}] code generation fails: {out.strip()[-120:]}")
+                continue
+            return None, f"no generated body: {out.strip()[-200:]}"
+        res = syn_batch([rust_tokens(m.group(1))], log_dir)[0]
+        ok = res[0] == "OK" and re.match(want, res[1]) is not None
+        broken = broken or not ok
+        texts.append(f"[{prof}] `{src.strip().splitlines()[-1].strip()}` on {cty} emitted as `{m.group(1).strip()}` -> {res[1]}")
+    return broken, "; ".join(texts)
+
+
 def native_index_slice(case, log_dir):
     """case: 'index String' | 'index List' | 'slice String [True, False, True]' ...  -> (broken?, text)"""
     import kani
@@ -446,14 +477,23 @@ def native_index_slice(case, log_dir):
         src = f"def f(x: {cty}, i: int) -> {'str' if is_str else 'int'}:\n    return x[i]\n"
         helper = "incan_stdlib::strings::str_index" if is_str else "incan_stdlib::collections::list_get"
         want = rf"^(\(method:clone )?\(call:{re.escape(helper)} x i\)\)?$"
+    elif len(parts) < 3 or "?" in case:
+        # the path does not examine which bounds are present (e.g. a shortcut keyed on something else): replay a battery of slice
+        # sentences, with variable and with literal bounds, on both container kinds
+        texts, broken = [], False
+        for cty_, bt_ in (("str", "String"), ("List[int]", "List")):
+            for pieces in (("a", "b", "c"), ("a", "b", ""), ("a", "", ""), ("", "b", ""), ("", "", "c"), ("3", "1", ""), ("0", "2", ""),
+                           ("1", "", ""), ("", "2", ""), ("0", "", "c"), ("4", "2", ""), ("2", "2", "")):
+                b_, t_ = native_slice_sentence(cty_, bt_, pieces, log_dir)
+                if b_ is None:
+                    return None, t_
+                if b_:
+                    broken = True
+                    texts.append(t_)
+        return broken, "; ".join(texts[:4]) or "24 slice sentences (variable and literal bounds, str and list) are emitted as the documented helper call"
     else:
         pres = [w.strip(" [],") == "True" for w in parts[2].split(",")]
-        a, b, c = [(n if pr else "") for n, pr in zip("abc", pres)]
-        sl = f"{a}:{b}" + (f":{c}" if pres[2] else "")
-        src = f"def f(x: {cty}, a: int, b: int, c: int) -> {cty}:\n    return x[{sl}]\n"
-        helper = "incan_stdlib::strings::str_slice" if is_str else "incan_stdlib::collections::list_slice"
-        args = " ".join((f"(call:Some {n})" if pr else "None") for n, pr in zip("abc", pres))
-        want = "^" + re.escape(f"(call:{helper} x {args})") + "$"
+        return native_slice_sentence(cty, bt, tuple((n if pr else "") for n, pr in zip("abc", pres)), log_dir)
     path = os.path.join(log_dir, "indexslice_replay.incn")
     with open(path, "w") as fh:
         fh.write(src)
